@@ -299,8 +299,8 @@ def expiry_plan(n, tier=None):
 def histories(n, long):
     """Announcement histories on one timeline: (label, key, [(offset seconds, announcer, duplicate the store datagrams)]).
     'single' = the (announcer, hash) alphabet of the hit half, announced once at offset 0.  The long part adds the same
-    node announcing the same blob again 1 s / 12 h / 24 h - 1 s later, a second node announcing it 12 h later, and a
-    re-announcement whose store datagrams all arrive twice."""
+    node announcing the same blob again 1 s / 12 h / 24 h - 1 s / 24 h 10 min later, a second node announcing it 12 h later,
+    and a re-announcement whose store datagrams all arrive twice."""
     out = [('single', key, [(0, a, False)], h) for a, h, key in expiry_plan(n)]
     if long:
         x, y = n - 1, (n - 2) % n
@@ -311,12 +311,15 @@ def histories(n, long):
                 ('re-announce+12h', hk(b'B'), [(0, x, False), (12 * HOUR, x, False)], ''),
                 ('re-announce+24h-1s', hk(b'C'), [(0, x, False), (DAY - 1, x, False)], ''),
                 ('second-announcer+12h', hk(b'D'), [(0, x, False), (12 * HOUR, y, False)], ''),
+                # expired at 24 h, not yet purged by the hourly refresh (t0 = 4600: next purge at t0 + 24 h + 2600 s)
+                ('re-announce+24h10m-after-expiry', hk(b'G'), [(0, x, False), (DAY + 600, x, False)], ''),
                 ('re-announce+12h-duplicated-store', hk(b'F'), [(0, x, True), (12 * HOUR, x, True)], '')]
     return out
 
 
 SINGLE_PROBES = (DAY - 1, DAY, DAY + 1)
-LONG_PROBES = (DAY - 1, DAY, DAY + 1, DAY + 2, 36 * HOUR - 1, 36 * HOUR + 1, 2 * DAY - 2, 2 * DAY)
+LONG_PROBES = (DAY - 1, DAY, DAY + 1, DAY + 2, 36 * HOUR - 1, 36 * HOUR + 1, 2 * DAY - 2, 2 * DAY, 2 * DAY + 599,
+               2 * DAY + 600, 2 * DAY + 601)
 
 
 def is_store_request(d):
@@ -689,6 +692,8 @@ def work_hit(item, res):
                     res.witness('expiry_probed_at_exact_boundary')
                 if p['expect'] == 'found' and p['hit'] and p['history'] == 'single' and p['at'] == DAY - 1:
                     res.witness('hit_one_second_before_expiry')
+                if p['history'] == 're-announce+24h10m-after-expiry' and p['expect'] == 'found' and p['hit'] and p['at'] > DAY + 600:
+                    res.witness('reannounced_after_expiry_found_again')
                 if p['expect'] == 'found' and p['hit'] and p['history'].startswith('re-announce') and p['at'] >= DAY:
                     res.witness('found_more_than_24h_after_first_announcement_thanks_to_reannouncement')
                 if p['expect'] == 'found' and p['hit'] and p['history'] == 're-announce+12h-duplicated-store':
@@ -1353,7 +1358,7 @@ def run(ctx):
               'bound (early / non-oldest delivery, duplication, a timer overtaking pending datagrams but never an RPC '
               'timeout) over the announce+lookup phases of the cases listed in bounds.deviation_cases; announcement '
               'histories on one 24-48 h timeline of unbroken periodic traffic: every (announcer, hash) announced once, the '
-              'same node re-announcing 1 s / 12 h / 24 h-1 s later, a second node announcing 12 h later, a re-announcement '
+              'same node re-announcing 1 s / 12 h / 24 h-1 s / 24 h 10 min later, a second node announcing 12 h later, a re-announcement '
               'with every store datagram duplicated, a re-announcement from a new tcp port, probed by every other node at '
               'latest+24h-1s (found), +24h exactly and +24h+1s (gone), judged against "age counts from the latest '
               'announcement"; the real BlobAnnouncer loop (stub storage with SQLiteStorage policy) for 26 h (quick) / 96 h '
